@@ -8,12 +8,18 @@ def props_of(path):
     ids = re.findall(r'[cC](\d\d)', os.path.relpath(path, os.path.join(VERIF, 'benign')))
     return sorted({f'C{i}' for i in ids})
 bad = 0
+# `benign.py --on C07 [C09 ...]`: run the given checks against EVERY benign patch
+# (a refactor filed under one property can disturb the rules of another).
+ON = sys.argv[2:] if sys.argv[1:2] == ['--on'] else None
+PSV = os.environ.get('PSV_BIN', os.path.join(VERIF, 'bin', 'psv'))
 for root, _, files in sorted(os.walk(os.path.join(VERIF, 'benign'))):
     for f in sorted(files):
         if not f.endswith('.patch'): continue
         p = os.path.join(root, f)
-        props = props_of(p)
-        if sys.argv[1:] and not set(props) & set(sys.argv[1:]): continue
+        props = ON if ON else props_of(p)
+        if not ON and sys.argv[1:] and not set(props) & set(sys.argv[1:]): continue
+        if not ON and sys.argv[1:]:
+            props = [x for x in props if x in sys.argv[1:]]
         d = tempfile.mkdtemp(prefix='psv-ben-')
         try:
             subprocess.check_call(['rsync','-a','--exclude','.git','/repo/', d+'/'])
@@ -21,7 +27,7 @@ for root, _, files in sorted(os.walk(os.path.join(VERIF, 'benign'))):
             if r.returncode != 0:
                 print('SKIPPED', os.path.relpath(p, VERIF), '(does not apply)'); continue
             for prop in props:
-                r = subprocess.run([os.path.join(VERIF,'bin','psv'),'check',prop,'--repo',d,'--no-evidence','--verif',VERIF], capture_output=True, text=True, env=ENV)
+                r = subprocess.run([PSV,'check',prop,'--repo',d,'--no-evidence','--verif',VERIF], capture_output=True, text=True, env=ENV)
                 ok = r.returncode == 0
                 bad += 0 if ok else 1
                 print('QUIET  ' if ok else 'ALARM  ', prop, os.path.relpath(p, VERIF), '' if ok else ' | '.join(l[:200] for l in r.stdout.splitlines() if l.startswith(('violated','ERROR'))))
